@@ -26,7 +26,7 @@ RULE = ('programs: scope-shape generator (nested function declarations / named a
         'binding was renamed; distinct by that pair.')
 ASSUMPTIONS = ['refscope implements ES5 scoping (10.2, 10.5, 12.14, 13); programs using with / direct eval are out of scope',
                'the rule composition passes reserved_keywords exactly as minify_printer does']
-BUDGET_S = {'quick': 70, 'thorough': 900}
+BUDGET_S = {'quick': 100, 'thorough': 900}
 REQUIRED_HITS = ['obfuscated_print', 'occurrences_checked', 'Obfuscator.finalize', 'NameGenerator.next', 'reused_printer']
 FLOOR = {'quick': 1500, 'thorough': 20000}
 
